@@ -108,6 +108,11 @@ def rule_menu(cols, roles):
         common_e2 = (set(cols) & {"g", "w"}) - {"g"}
         if not common_e2:
             add("join_no_common_non_key_checked", "accept", {"op": "natural_join", "b": E_NO_Y, "on": ["g"], "jointype": "LEFT", "check": True})
+        if not common_e2:
+            # a common column that is a key on one side only (g is joined to w, not to the right g):
+            # it is common, it is not an equality key on both sides, so the requested check must refuse it
+            add("join_common_non_key_checked", "reject", {"op": "natural_join", "b": E_NO_Y, "on": [["g", "w"]], "jointype": "LEFT", "check": True})
+            add("join_common_non_key_unchecked", "accept", {"op": "natural_join", "b": E_NO_Y, "on": [["g", "w"]], "jointype": "LEFT"})
     # ---- rule: concatenation
     if set(cols) != {"g", "w", "y"}:
         add("concat_different_columns", "reject", {"op": "concat_rows", "b": menus.E_HIST, "id_column": "src"})
